@@ -35,6 +35,13 @@ type Options struct {
 	Determinism int  // number of repeated scans per step for the tie-order check (0 = off)
 	Reopen      bool // also scan through a reopened (cold) handle
 	StopOnFail  bool
+	// ColdProbe: after every operation, before the long-lived handle looks at the new commit,
+	// query all commits (descendant first / random order) and branches through a fresh handle.
+	ColdProbe bool
+	// ColdOps: run every other merge / revert / delete / compact through a fresh handle.
+	ColdOps bool
+	// PruneSnaps: remove the persisted snapshot cache file of every second commit after each step.
+	PruneSnaps bool
 }
 
 type refState struct {
@@ -194,7 +201,29 @@ func RunHistory(h *History, prof *Profile, rng *rand.Rand, opt Options) *Outcome
 			tipsBefore[k] = v
 		}
 		ncBefore := len(r.Commits)
+		if opt.ColdOps && step%2 == 1 {
+			switch op.Kind {
+			case "merge", "revert", "delete", "compact", "delwhere":
+				if l2, err := r.Reopen(); err == nil {
+					r.L = l2
+					out.Stats["cold-op:"+op.Kind]++
+				}
+			}
+		}
 		aerr := r.Apply(op)
+		var coldC []CommitObs
+		var coldB []BranchObs
+		if opt.ColdProbe {
+			n := len(r.Commits)
+			order := make([]int, n)
+			for k := range order {
+				order[k] = n - k
+			}
+			if step%3 == 2 {
+				rand.New(rand.NewSource(int64(step)*7919+int64(n))).Shuffle(n, func(a, b int) { order[a], order[b] = order[b], order[a] })
+			}
+			coldC, coldB, _ = r.ColdProbe(order)
+		}
 		obs, oerr := r.Observe(opt.Commits)
 		if oerr != nil {
 			out.Err = fmt.Errorf("step %d (%s): observe: %w", step, op, oerr)
@@ -205,6 +234,7 @@ func RunHistory(h *History, prof *Profile, rng *rand.Rand, opt Options) *Outcome
 			obs.ErrText = aerr.Error()
 		}
 		obs.Dels = dels
+		obs.ColdCommits, obs.ColdBranches = coldC, coldB
 		out.Obs = append(out.Obs, obs)
 		out.Stats["res:"+op.Kind+":"+trimOther(obs.Res)]++
 		if obs.Res == "panic" {
@@ -215,6 +245,9 @@ func RunHistory(h *History, prof *Profile, rng *rand.Rand, opt Options) *Outcome
 			checkDeterminism(r, t, obs, opt, step, fail)
 		}
 		prev = obs
+		if opt.PruneSnaps {
+			r.PruneSnaps(len(t.Vals))
+		}
 		if stop && opt.StopOnFail {
 			break
 		}
@@ -511,6 +544,53 @@ func checkStep(r *Real, t *Table, ref *refState, op Op, obs, prev *StepObs, tips
 			} else if !EqInts(canon, ref.scanAt[co.ID]) {
 				fail("oracle", fmt.Sprintf("%s:commit-changed:%s", P, op.Kind), fmt.Sprintf("after %s pool@c%d returns %v, at creation it returned %v", op, co.ID, canon, ref.scanAt[co.ID]), step)
 			}
+		}
+	}
+	if len(obs.ColdCommits) > 0 || len(obs.ColdBranches) > 0 {
+		checkCold(r, t, ref, op, obs, opt, step, vacAffected, fail)
+	}
+}
+
+// checkCold compares what a freshly opened handle returned (queried before the long-lived
+// handle saw the new commit) with the references: earlier commits as at their creation, the
+// new commit and the branches as the long-lived handle sees them.
+func checkCold(r *Real, t *Table, ref *refState, op Op, obs *StepObs, opt Options, step int,
+	vacAffected func([]int) bool, fail func(kind, key, what string, step int)) {
+	P := opt.Prop
+	warm := map[int]CommitObs{}
+	for _, co := range obs.Commits {
+		warm[co.ID] = co
+	}
+	var order []int
+	for _, co := range obs.ColdCommits {
+		order = append(order, co.ID)
+	}
+	for _, co := range obs.ColdCommits {
+		wantStatus, seen := ref.statAt[co.ID]
+		want := ref.scanAt[co.ID]
+		if w, ok := warm[co.ID]; ok && (!seen || co.ID == len(r.Commits)) {
+			wantStatus, want, seen = w.Status, t.CanonTies(w.Scan), true
+		}
+		if !seen || wantStatus != "ok" || vacAffected(ref.objsAt[co.ID]) {
+			continue
+		}
+		if co.Status != "ok" {
+			fail("oracle", fmt.Sprintf("%s:cold-commit-unreadable:%s", P, op.Kind), fmt.Sprintf("after %s a freshly opened handle (commits queried in order %v) cannot read commit c%d: %s", op, order, co.ID, co.Status), step)
+			return
+		}
+		if got := t.CanonTies(co.Scan); !EqInts(got, want) {
+			fail("oracle", fmt.Sprintf("%s:cold-commit-changed:%s", P, op.Kind), fmt.Sprintf("after %s a freshly opened handle (commits queried in order %v) returns %v for pool@c%d; the commit holds %v", op, order, got, co.ID, want), step)
+			return
+		}
+	}
+	for _, cb := range obs.ColdBranches {
+		wb := findBranch(obs, cb.Name)
+		if wb == nil || wb.Status != "ok" {
+			continue
+		}
+		if cb.Status != "ok" || !EqInts(t.CanonTies(cb.Scan), t.CanonTies(wb.Scan)) {
+			fail("oracle", fmt.Sprintf("%s:cold-branch:%s", P, op.Kind), fmt.Sprintf("after %s a freshly opened handle reads branch b%d as (%s) %v, the long-lived handle as %v", op, cb.Name, cb.Status, cb.Scan, wb.Scan), step)
+			return
 		}
 	}
 }
